@@ -577,32 +577,57 @@ def _invalid_params_code(types):
 
 
 def _parse_defaults(types):
-    """Params::parse: absent params are parsed as the text `null`; every serde error goes through invalid_params; Params::one is parse::<[T; 1]>"""
+    """Params::parse: absent params are parsed as the text `null`, present params as their own text; every serde error goes through
+    invalid_params. Params::one is parse::<[T; 1]> and returns that one element."""
     S = r"^fn params::<impl at types/src/params\.rs:[\d: ]+>::"
     b = R.find_body(types, S + r"parse\(_1: &Params<'_>\) -> Result<T,")
     ctx = P.make_ctx(types, extra_models=list(SQ.TRY_MODELS))
     ex = Executor(ctx)
-    present = z3.Bool("params.present")
-
-    def pre(ex_, st, body):
-        pass
     ps = ex.run(b)
     bad = [(p.kind, p.detail) for p in ps if p.kind != "return"]
-    viol, reach = [], {"call": []}
+    viol, reach = [], {"absent": [], "present": []}
     for p in ps:
         if p.kind != "return":
             continue
         fs = [e for e in p.events if e.kind == "call" and re.search(r"^serde_json::from_str::<", e.callee)]
-        reach["call"].append(p.cond())
-        if len(fs) != 1:
+        me = [e for e in p.events if e.kind == "call" and re.search(r"^Result::<T, serde_json::Error>::map_err::<", e.callee)]
+        if len(fs) != 1 or len(me) != 1:
             viol.append(p.cond())
             continue
-        me = [e for e in p.events if e.kind in ("call", "inline") and re.search(r"map_err", e.callee)]
         t = str(to_term(MM.value_of(ex, fs[0].args[0])))
-        # the text handed to serde_json is unwrap_or(<params text>, "null")
-        if "null" not in t and "unwrap_or" not in t:
+        absent = not ex.feasible(list(p.pc) + [z3.BitVec("arg1.*.0.discr", 64) != 0])
+        if absent:
+            reach["absent"].append(p.cond())
+            if t != "str:null":
+                viol.append(p.cond())
+        else:
+            reach["present"].append(p.cond())
+            if "arg1.*.0.Some:0" not in t or "AsRef<str>>::as_ref" not in t:
+                viol.append(p.cond())
+        if "invalid_params::<serde_json::Error>" not in str(to_term(me[0].args[1])) or str(to_term(fs[0].ret)) not in str(to_term(me[0].args[0])):
             viol.append(p.cond())
-    return b, viol, reach, bad, ps
+        # the result returned is that map_err result
+        if str(to_term(me[0].ret)) != str(to_term(MM.value_of(ex, p.ret))) and str(to_term(me[0].ret)) not in str(to_term(MM.value_of(ex, p.ret))):
+            viol.append(p.cond())
+    return b, viol, reach, bad
+
+
+def _one(types):
+    S = r"^fn params::<impl at types/src/params\.rs:[\d: ]+>::"
+    b = R.find_body(types, S + r"one\(_1: &Params<'_>\) -> Result<T,")
+    ctx = P.make_ctx(types, extra_models=list(SQ.TRY_MODELS))
+    ex = Executor(ctx)
+    ps = ex.run(b)
+    bad = [(p.kind, p.detail) for p in ps if p.kind != "return"]
+    viol, reach = [], []
+    for p in ps:
+        if p.kind != "return":
+            continue
+        reach.append(p.cond())
+        pe = [e for e in p.events if e.kind in ("call", "inline") and re.search(r"::parse::<\[T; 1\]>$", e.callee)]
+        if len(pe) != 1 or "arg1" not in str(to_term(pe[0].args[0])):
+            viol.append(p.cond())
+    return b, viol, reach, bad
 
 
 def obligations(tier, seed):
@@ -615,4 +640,19 @@ def obligations(tier, seed):
         out.append(R.decide("kernel:invalid_params:code", "kernel", z3.Or(*viol) if viol else z3.BoolVal(False), [z3.Or(*reach)], bodies=[b.name],
                             desc="invalid_params(e) builds the error object with ErrorCode::InvalidParams.code() (-32602, see C15 for the code table) for every e",
                             bounds="every path", keydetail="invalid-params-code", replay=dict(scenario="c16_sequence", vars={}, fixed={"text": "[\"x\"]", "reads": [["next", "u64"]]}, region=z3.BoolVal(True))))
+    b, viol, reach, bad = _parse_defaults(types)
+    if bad or not all(reach.values()):
+        out.append(R.Result(engine="mirsym", name="prov:Params::parse", kind="provenance", status="unsupported" if bad else "vacuous", detail=str(bad[:1] or {k: len(v) for k, v in reach.items()})[:300], bodies=[b.name]))
+    else:
+        out.append(R.decide("prov:Params::parse:text-or-null", "provenance", z3.Or(*viol) if viol else z3.BoolVal(False), [z3.Or(*v) for v in reach.values()], bodies=[b.name],
+                            desc="Params::parse hands serde_json the params' own text, or the text `null` when params are absent, and maps every serde error through invalid_params",
+                            bounds="params absent / present; every path", keydetail="parse-text",
+                            replay=dict(scenario="c16_whole", vars={}, fixed={"battery": True}, region=z3.BoolVal(True))))
+    b, viol, reach, bad = _one(types)
+    if bad or not reach:
+        out.append(R.Result(engine="mirsym", name="prov:Params::one", kind="provenance", status="unsupported", detail=str(bad[:1])[:300], bodies=[b.name]))
+    else:
+        out.append(R.decide("prov:Params::one:is-parse-of-one-element-array", "provenance", z3.Or(*viol) if viol else z3.BoolVal(False), [z3.Or(*reach)], bodies=[b.name],
+                            desc="Params::one::<T> is parse::<[T; 1]> on the same params", bounds="every path", keydetail="one",
+                            replay=dict(scenario="c16_whole", vars={}, fixed={"battery": True}, region=z3.BoolVal(True))))
     return out
